@@ -221,7 +221,7 @@ fn obs_str(o: &IterObs) -> String {
 }
 
 /// Runs one word; returns Some((failing call index, origin, what)) on the first refutation.
-fn run_word(kind: Kind, f: &Files, word: &[L], typed: Option<i32>, rep: &mut Report) -> Option<(usize, Origin, String)> {
+fn run_word(kind: Kind, f: &Files, word: &[L], typed: Option<i32>, final_read: bool, rep: &mut Report) -> Option<(usize, Origin, String)> {
     let mut rd = open(kind, f);
     let mut allowed: BTreeSet<usize> = [0].into_iter().collect();
     let mut origin = Origin::Fresh;
@@ -332,6 +332,38 @@ fn run_word(kind: Kind, f: &Files, word: &[L], typed: Option<i32>, rep: &mut Rep
             }
         }
     }
+    if final_read {
+        // the history ends with the read-everything call (consuming for ShapeReader): it is an
+        // iteration to the end like any other and must start at an allowed position
+        rep.count("histories_ended_by_read()/read_as()", 1);
+        let e = |x: Error| err_class(&x);
+        let got: Result<Vec<(D, Option<Option<usize>>)>, String> = match rd {
+            AnyReader::Shape(r) => match typed {
+                None => r.read().map(|v| v.iter().map(|s| (s.d(), None)).collect()).map_err(e),
+                Some(t) => for_type!(t, T => r.read_as::<T>().map(|v| v.iter().map(|s| (s.d(), None)).collect()).map_err(e)),
+            },
+            AnyReader::Complete(mut r) => match typed {
+                None => r.read().map(|v| v.iter().map(|(s, row)| (s.d(), Some(row_index(row)))).collect()).map_err(e),
+                Some(t) => for_type!(t, T => r.read_as::<T, dbase::Record>().map(|v| v.iter().map(|(s, row)| (s.d(), Some(row_index(row)))).collect()).map_err(e)),
+            },
+        };
+        let idx = word.len();
+        match got {
+            Err(err) => return Some((idx, origin, format!("read-all failed: {}", err))),
+            Ok(items) => {
+                let ok = allowed.iter().any(|&s| {
+                    let s = s.min(N);
+                    items.len() == N - s
+                        && items.iter().enumerate().all(|(i, (d, row))| which(d, &f.recs) == Some(s + i) && row.map(|r| r == Some(s + i)).unwrap_or(true))
+                });
+                if !ok {
+                    let seen: Vec<String> = items.iter().map(|(d, row)| format!("rec{:?}{}", which(d, &f.recs), row.map(|r| format!("+row{:?}", r)).unwrap_or_default())).collect();
+                    let allowed_s: Vec<String> = allowed.iter().map(|s| format!("records[{}..]", s)).collect();
+                    return Some((idx, origin, format!("read-all returned [{}]; the property allows {}", seen.join(", "), allowed_s.join(" or "))));
+                }
+            }
+        }
+    }
     None
 }
 
@@ -415,21 +447,25 @@ pub fn run(ctx: &Ctx) -> Report {
                     continue;
                 }
                 let case = format!("c15:cfg{}:w{}", ci, wi);
-                if !ctx.want(&case) {
+                if !ctx.want(&case) && !ctx.only.as_ref().map(|o| o.starts_with(&case)).unwrap_or(false) {
                     continue;
                 }
                 rep.eval();
                 rep.class(&format!("{} reader, {} record sizes, {} API, words <= {}", kname, if *equal { "equal" } else { "different" }, if *typed_api { "typed (*_as::<T>)" } else { "generic" }, max_len));
                 rep.nontrivial(&case);
-                match panicmon::catch(|| run_word(*kind, &f, w, typed, rep)) {
+                // every history runs twice: as it is, and ended by read() / read_as()
+                for final_read in [false, true] {
+                let case = if final_read { format!("{}:read", case) } else { case.clone() };
+                match panicmon::catch(|| run_word(*kind, &f, w, typed, final_read, rep)) {
                     Err(p) => rep.violation(&format!("{}/panic", kname), &case, J::obj(vec![("history", J::s(word_str(w))), ("panic", J::s(p.class()))])),
                     Ok(None) => {}
                     Ok(Some((idx, origin, what))) => {
-                        let call = match w[idx] {
-                            L::Iter(_) | L::IterAll => "iter",
-                            L::Nth(_) => "nth",
-                            L::Seek(_) => "seek",
-                            L::Count => "count",
+                        let call = match w.get(idx) {
+                            Some(L::Iter(_)) | Some(L::IterAll) => "iter",
+                            Some(L::Nth(_)) => "nth",
+                            Some(L::Seek(_)) => "seek",
+                            Some(L::Count) => "count",
+                            None => "read-all",
                         };
                         rep.violation(
                             &format!("{}{}/{}/{}", kname, if *typed_api { "(typed)" } else { "" }, origin_str(origin), call),
@@ -437,12 +473,13 @@ pub fn run(ctx: &Ctx) -> Report {
                             J::obj(vec![
                                 ("reader", J::s(kname)),
                                 ("record_sizes", J::s(if *equal { "equal" } else { "pairwise different" })),
-                                ("history", J::s(word_str(w))),
+                                ("history", J::s(format!("{}{}", word_str(w), if final_read { "; read-all" } else { "" }))),
                                 ("failing_call_index", J::UInt(idx as u64)),
                                 ("what", J::s(what)),
                             ]),
                         );
                     }
+                }
                 }
                 if wi % 1013 == 11 {
                     rep.sample(|| J::obj(vec![("reader", J::s(kname)), ("history", J::s(word_str(w)))]));
